@@ -1,6 +1,7 @@
 package interpreter
 
 import (
+	"math/big"
 	"slices"
 
 	"github.com/formancehq/numscript/internal/parser"
@@ -91,7 +92,20 @@ func (st *programState) runBalancesQuery() error {
 	// reset batch query
 	st.CurrentBalanceQuery = BalanceQuery{}
 
-	st.CachedBalances = balances
+	// merge the fetched balances into the cache, so that previously fetched
+	// values are not forgotten. Values are copied: the maps and integers
+	// handed over by the store are never modified by the interpreter
+	for accountName, accountBalances := range balances {
+		cachedAccountBalances := defaultMapGet(st.CachedBalances, accountName, func() AccountBalance {
+			return AccountBalance{}
+		})
+		for asset, amount := range accountBalances {
+			if _, isCached := cachedAccountBalances[asset]; isCached || amount == nil {
+				continue
+			}
+			cachedAccountBalances[asset] = new(big.Int).Set(amount)
+		}
+	}
 	return nil
 }
 
